@@ -436,6 +436,7 @@ class Interp:
     def load_name(self, name, frame):
         f = frame
         if name in frame.globals_decl:
+            self.ctx.events.append(('global-read', frame.module.relpath, name))
             return self.module_lookup(frame.module, name)
         while f is not None:
             if name in f.locals:
@@ -446,6 +447,8 @@ class Interp:
     def store_name(self, name, val, frame):
         if name in frame.globals_decl or getattr(frame, 'is_module', False):
             self.ctx.modstate[(frame.module.relpath, name)] = val
+            if not getattr(frame, 'is_module', False):
+                self.ctx.events.append(('global-write', frame.module.relpath, name))
             return
         if name in frame.nonlocal_decl:
             f = frame.parent
